@@ -8,6 +8,10 @@ claimed = {
              text='Every parser implementation is proved, for all inputs and loop iterations, to return an error matching ErrNotEnoughBytes whenever the abstract stream ran dry during the call, and to leave the dry flag unchanged on success. Proof level because the claim is a per-function postcondition that the VC generator discharges without bounds.',
              note='Assumes the BytesChannel contract (stream semantics) for the channel passed in, closed world of FieldFmt/FieldData/Package implementations, sentinel error variables never reassigned, integers modelled mathematically with explicit wrap, goroutines not modelled. Re-parse after rollback (fresh package per attempt) is part of C02.',
              ref='3 C07'),
+ 'C15': dict(tech='contract-based deductive verification: representation invariant of PacketQueue against an abstract byte stream (ghost view), loop invariants with cuts, VCs from go/ssa, z3/cvc5',
+             text='Every PacketQueue method is proved against its contract over the abstract stream view: reads return exactly the next bytes across packet boundaries (typed reads with little-endian composition), a failed read reports ErrNotEnoughBytes, AddPacket/Discard/SetPosition/Reset keep the representation invariant and the unread bytes, Read fills the caller buffer, writes append to the output stream in packets of the current size. Proof level: per-method pre/postconditions and invariants, unbounded in sizes and iteration counts.',
+             note='Assumes one goroutine per queue, a queue used under one discipline (read or write), the packet-size function contract (range 9..65535, see C08), no aliasing between caller buffers and queued packet bodies. Obligations above the per-tier claim threshold are listed as unclaimed in the evidence (WriteBytes content clause at the loop exit).',
+             ref='3 C15'),
  'C10': dict(tech='contract-based deductive verification: zero-annotation safety sweep (nil, index, slice, make, division, type assertion, callee preconditions) over the receive call tree, VCs from go/ssa, z3/cvc5',
              text='Generated safety obligations of every parser / value decoder reachable from the packet reader are discharged for arbitrary stream contents; structural preconditions are carried by type invariants and typestate ghosts checked at constructors. Proof level: per-function obligations, unbounded.',
              note='Assumes library functions do not panic when their stated preconditions hold, String()/Error() methods do not panic, non-nil receivers (obligation at static call sites). Allocation proportionality and the packet reader loop are listed separately in the evidence; known findings are printed as KNOWN-FINDING.',
